@@ -97,6 +97,7 @@ type c18gen struct {
 	last    *stree // previous regular file (for duplicates)
 	spell   int    // spelling of the source argument (directory sources only), see c18Spellings
 	multi   bool   // pass every top-level entry of the tree as its own source argument
+	outv    int    // > 0: spelling of the output location, see c18Outputs
 	nodes   int
 	feat    map[string]bool
 	maxDep  int
@@ -245,8 +246,20 @@ func (g *c18gen) emitTree(t *stree, p VL, fs *VL) Val {
 // contents then land directly in the output directory, as with --no-wrap)
 var c18Spellings = []string{"src/%", "/SB/src/%", "src/%/", "./src/%", "src//%", "src/../src/%", "/SB/src/%/", "./src/%//", "src/./%", "src/%/."}
 
+// where the archive is extracted to: /SB/out, named directly, through a symlink to it (relative and
+// absolute link), below a symlinked parent, with dot-dot through a link, or not named at all: the
+// tool then extracts into its working directory, entered through its logical ($PWD) path
+type c18Output struct {
+	arg   string
+	noArg bool
+}
+
+var c18Outputs = []c18Output{{"out", false}, {"/SB/out", false}, {"olnk", false}, {"/SB/olnk", false}, {"plnk/out", false},
+	{"/SB/plnk/out", false}, {"alnk", false}, {"olnk/", false}, {"plnk/olnk/../out", false},
+	{"/SB/olnk", true}, {"/SB/plnk/out", true}, {"/SB/out", true}, {"/SB/alnk", true}}
+
 func c18Case(c *Ctx, g *c18gen, top []byte, t *stree, version uint64, nowrap bool, mode uint64, absSrc, absOut bool, label string) {
-	fs := VL{fsDir(), fsDir("src"), fsDir("out")}
+	fs := VL{fsDir(), fsDir("src"), fsDir("out"), fsLink("out", "olnk"), fsLink("/SB/out", "alnk"), fsLink(".", "plnk")}
 	srcPath := VL{VB(sbName), VB([]byte("src")), VB(top)}
 	g.recipes = VL{}
 	u := g.emitTree(t, srcPath, &fs)
@@ -313,8 +326,30 @@ func c18Case(c *Ctx, g *c18gen, top []byte, t *stree, version uint64, nowrap boo
 	if absOut {
 		outdir = []byte("/SB/out")
 	}
-	opts := VL{VN(version), vbool(nowrap), VN(mode)}
-	in := VL{fs, VL{VB(sbName)}, VB(outdir), VB(nil), roots, opts, VL{srcArgV, g.recipes}, srcPath, dst}
+	noArg := false
+	cwdV := VL{VB(sbName)}
+	if g.outv > 0 {
+		o := c18Outputs[g.outv%len(c18Outputs)]
+		outdir = []byte(o.arg)
+		noArg = o.noArg
+		c.Count("output-location:" + o.arg + map[bool]string{true: " (cwd, no argument)", false: ""}[noArg])
+		if noArg {
+			// the working directory of the extraction is the output directory; sources are then
+			// named absolutely
+			cwdV = VL{VB(sbName), VB([]byte("out"))}
+			if a, ok := srcArgV.(VB); ok && !bytes.HasPrefix(a, []byte("/")) {
+				srcArgV = VB(append([]byte("/SB/"), bytes.TrimPrefix(a, []byte("./"))...))
+			} else if l, ok := srcArgV.(VL); ok {
+				nl := VL{}
+				for _, x := range l {
+					nl = append(nl, VB(append([]byte("/SB/"), vb(x)...)))
+				}
+				srcArgV = nl
+			}
+		}
+	}
+	opts := VL{VN(version), vbool(nowrap), VN(mode), vbool(noArg)}
+	in := VL{fs, cwdV, VB(outdir), VB(nil), roots, opts, VL{srcArgV, g.recipes}, srcPath, dst}
 	obs := runCreateExtractCase(c, in)
 	c.Count("kind:" + label)
 	c.Count("version:" + string(rune('0'+version)))
@@ -378,6 +413,11 @@ func init() {
 				g.nodes = 7
 				c18Case(c, g, []byte("photos"), small(), 1+uint64(sp%2), nowrap, uint64(sp%3), false, sp%2 == 0, "directed:source-spelling")
 			}
+		}
+		for ov := 2; ov < len(c18Outputs); ov++ {
+			g := &c18gen{r: r.Fork(), c: c, feat: map[string]bool{"output-through-symlink": true, "empty-dir": true, "symlink": true}, maxDep: 3, outv: ov}
+			g.nodes = 7
+			c18Case(c, g, []byte("photos"), small(), 1+uint64(ov%2), ov%3 == 0, uint64(ov%3), false, false, "directed:output-location")
 		}
 		for k := 0; k < 3; k++ {
 			g := &c18gen{r: r.Fork(), c: c, feat: map[string]bool{"multiple-sources": true, "empty-dir": true, "symlink": true}, maxDep: 3, multi: true}
@@ -523,6 +563,10 @@ func init() {
 			if t.kind == 'd' && gr.Chance(40) {
 				g.spell = 1 + gr.Intn(len(c18Spellings)-1)
 				g.feat["source-spelling"] = true
+			}
+			if gr.Chance(35) {
+				g.outv = 2 + gr.Intn(len(c18Outputs)-2)
+				g.feat["output-through-symlink"] = true
 			}
 			if t.kind == 'd' && len(t.ents) > 0 && gr.Chance(12) {
 				g.multi = true
